@@ -297,6 +297,24 @@ let handle (fields : string list) : string =
          (toks s.ps_rep) (toks s.ps_end) (List.length s.ps_bds) (String.concat ";" (List.map show_descr s.ps_bds))
          (match s.ps_dist with None -> "none" | Some (f, t) -> fam f ^ ":" ^ hex (implode t))
          (if stoch_generable s then "T" else "F"))
+  | [ "mol"; raw; valid ] ->
+    let vs = List.map unhex (split_nonempty ',' valid) in
+    let valid_atom (t : str) = List.mem (implode t) vs in
+    (match parse_molecule valid_atom fprint (explode (unhex raw)) with
+     | Err (e, _) -> "ERR " ^ err_name e
+     | OK m ->
+       let fam = function FFlorySchulz -> "flory_schulz" | FGauss -> "gauss" | FUniform -> "uniform" | FSchulzZimm -> "schulz_zimm"
+                        | FLogNormal -> "log_normal" | FPoisson -> "poisson" in
+       let el = function
+         | MTok t -> "T:" ^ hex (implode (print_token fprint true t))
+         | MStoch s -> Printf.sprintf "S:%s:%s:%s:%s:%d:%s" (hex (implode (print_descr fprint true s.ps_left))) (hex (implode (print_descr fprint true s.ps_right)))
+                         (String.concat "+" (List.map (fun t -> hex (implode (print_token fprint true t))) s.ps_rep))
+                         (String.concat "+" (List.map (fun t -> hex (implode (print_token fprint true t))) s.ps_end))
+                         (List.length s.ps_bds) (match s.ps_dist with None -> "none" | Some (f, _) -> fam f) in
+       let on = function None -> "-" | Some x -> string_of_num x in
+       Printf.sprintf "OK elems=%s mix=%s gen=%s" (String.concat "," (List.map el m.ml_elems))
+         (match m.ml_mix with None -> "none" | Some x -> on x.mx_abs ^ ";" ^ on x.mx_rel)
+         (if molecule_generable m then "T" else "F"))
   | [ "token"; raw; off; valid ] ->
     (* valid: comma separated hex of the bracket atoms RDKit accepts *)
     let vs = List.map unhex (split_nonempty ',' valid) in
